@@ -33,26 +33,18 @@ end
 section tab
 variable {C : Type} [Num C]
 
-theorem tab_eq (m n : Nat) (f : Mat C) : tab m n f = f := by
-  funext i j
-  unfold tab
-  split
-  · rename_i h
-    have hlt : i * n + j < m * n := by
-      calc i * n + j < i * n + n := by omega
-        _ = (i + 1) * n := by ring
-        _ ≤ m * n := Nat.mul_le_mul_right n (by omega)
-    have hj : (i * n + j) / n = i := by
-      rw [Nat.mul_comm, Nat.mul_add_div (by omega), Nat.div_eq_of_lt h.2]; simp
-    have hm : (i * n + j) % n = j := by
-      rw [Nat.mul_comm, Nat.mul_add_mod, Nat.mod_eq_of_lt h.2]
-    simp [hlt, hj, hm]
-  · rfl
-
-theorem tabv_eq (n : Nat) (f : Vec C) : tabv n f = f := by
-  funext i
-  unfold tabv
-  by_cases h : i < n <;> simp [h]
+/-- inside its extents a table returns the tabulated function -/
+theorem Tab.fn_ofFn (m n : Nat) (f : Mat C) (i j : Nat) (hi : i < m) (hj : j < n) :
+    (Tab.ofFn m n f).fn i j = f i j := by
+  have hlt : i * n + j < m * n := by
+    calc i * n + j < i * n + n := by omega
+      _ = (i + 1) * n := by ring
+      _ ≤ m * n := Nat.mul_le_mul_right n (by omega)
+  have hd : (i * n + j) / n = i := by
+    rw [Nat.mul_comm, Nat.mul_add_div (by omega), Nat.div_eq_of_lt hj]; simp
+  have hm : (i * n + j) % n = j := by
+    rw [Nat.mul_comm, Nat.mul_add_mod, Nat.mod_eq_of_lt hj]
+  simp [Tab.fn, Tab.ofFn, hi, hj, hlt, hd, hm, Array.getD]
 
 end tab
 
